@@ -136,12 +136,43 @@ def _edge_text(b, a, s):
     return "%s=%s" % (e, truth)
 
 
-def guard_fingerprint(b, bb, depth=4):
+def guard_fingerprint(b, bb, depth=4, _seen=None):
+    """The conditions that hold whenever block bb executes: for every switch that dominates bb, the out-edges through
+    which bb can be reached without passing the switch again (if that is not all of them).  A switch on a bool
+    temporary that only ever holds constants (`matches!(..)`, `a && b`) is replaced by the conditions under which
+    the temporary received the value."""
+    from .facts import flag_locals, is_bare as _ib
+    from .util import edge_is_true
     out = set()
-    for (a, s) in b.cdeps_transitive(bb):
-        e = _edge_text(b, a, s)
-        if e:
-            out.add(e)
+    seen = _seen if _seen is not None else set()
+    if getattr(b, "_flagset", None) is None:
+        b._flagset = flag_locals(b)
+    for a in b.reachable():
+        if b.term(a)["k"] != "switch" or a == bb or not b.dominates(a, bb):
+            continue
+        succs = [s for s in b.succ(a) if not b.is_cleanup(s)]
+        via = [s for s in succs if s == bb or bb in b.reach_from(s, avoid=[a])]
+        if not via or len(via) == len(succs):
+            continue
+        alts = []
+        for s in via:
+            truth, src = edge_is_true(b, a, s)
+            if src is not None and src[0] == "place" and _ib(src[1]) and src[1]["l"] in b._flagset and truth is not None and (a, s) not in seen:
+                seen.add((a, s))
+                want = "true" if truth else "false"
+                defs = [r for r in b.defs()[src[1]["l"]] if r[0] == "stmt" and (op_const(r[3]["rv"].get("use") or {}) or {}).get("v") == want]
+                if defs:
+                    subs = sorted({guard_fingerprint(b, r[1], 0, seen) for r in defs})
+                    alts.append("{" + " | ".join(subs) + "}" if len(subs) > 1 else (subs[0] or "true"))
+                    continue
+            e = _edge_text(b, a, s)
+            if e:
+                alts.append(e)
+        if alts:
+            txt = " | ".join(sorted(set(alts)))
+            for part in (txt.split(" & ") if len(alts) == 1 else [txt]):
+                if part and part != "true":
+                    out.add(part)
     if b.kind == "Closure" and b.parent and depth > 0:
         pb = b.facts.bodies.get(b.parent)
         if pb is not None:
